@@ -248,6 +248,71 @@ def r36(repo, ctx):
                   construct=f'_updateParticleSizeDistribution: {field} after grid change')
 
 
+def r39(repo, ctx):
+    """contradiction rule on the fault paths of the thermodynamics backends: a test `self.D.get(k) is None` / `self.D[k] is None`
+    that decides whether a previous result exists is meaningless when D is pre-filled with a non-None value for every phase
+    and nothing ever stores None into it - the documented fallback behind the test can then never be taken (or is always
+    taken) and the caller receives a record of Nones instead of the None it guards against."""
+    files = [p_ for p_ in ('kawin/thermo/MultiTherm.py', 'kawin/thermo/Thermodynamics.py', 'kawin/thermo/BinTherm.py', 'kawin/thermo/Surrogate.py') if repo.has_module(p_)]
+    n_tests = 0
+    for path in files:
+        tree = repo.module(path).tree
+        for cnode in [c for c in tree.body if isinstance(c, ast.ClassDef)]:
+            stored = {}         # dict field -> list of (kind, value expr)
+            for n in ast.walk(cnode):
+                if isinstance(n, ast.Assign):
+                    for t, v in U.assign_pairs(n):
+                        c = U.chain(t)
+                        if c and c[0] == 'self' and len(c) == 2 and isinstance(t, ast.Attribute):
+                            if isinstance(v, ast.DictComp):
+                                stored.setdefault(c[1], []).append(('prefill', v.value))
+                            elif isinstance(v, ast.Dict):
+                                for x in v.values:
+                                    stored.setdefault(c[1], []).append(('prefill' if v.keys else 'empty', x))
+                                if not v.keys:
+                                    stored.setdefault(c[1], []).append(('empty', None))
+                            else:
+                                stored.setdefault(c[1], []).append(('other', v))
+                        elif c and c[0] == 'self' and len(c) == 3 and c[2] == '[]' and isinstance(t, ast.Subscript):
+                            stored.setdefault(c[1], []).append(('item', v))
+                elif isinstance(n, ast.Call) and isinstance(n.func, ast.Attribute) and n.func.attr in ('update', 'setdefault', 'pop', 'clear') \
+                        and U.chain(n.func.value) and U.chain(n.func.value)[0] == 'self' and len(U.chain(n.func.value)) == 2:
+                    stored.setdefault(U.chain(n.func.value)[1], []).append(('other', None))
+
+            def never_none(fld):
+                vals = stored.get(fld) or []
+                kinds = {k for k, _ in vals}
+                if 'prefill' not in kinds or kinds & {'other', 'empty'}:
+                    return False
+                for k, v in vals:
+                    if not isinstance(v, (ast.Call, ast.List, ast.Tuple, ast.Dict, ast.ListComp)) and not (isinstance(v, ast.Constant) and v.value is not None):
+                        return False
+                return True
+            for m in [x for x in cnode.body if isinstance(x, ast.FunctionDef)]:
+                for t in ast.walk(m):
+                    if not (isinstance(t, ast.Compare) and len(t.ops) == 1 and isinstance(t.ops[0], (ast.Is, ast.IsNot)) and isinstance(t.comparators[0], ast.Constant)
+                            and t.comparators[0].value is None):
+                        continue
+                    l = t.left
+                    fld = None
+                    if isinstance(l, ast.Name):       # a local that holds the looked-up value
+                        binds = [a for a in ast.walk(m) if isinstance(a, ast.Assign) and len(a.targets) == 1 and isinstance(a.targets[0], ast.Name) and a.targets[0].id == l.id]
+                        if len(binds) == 1:
+                            l = binds[0].value
+                    if isinstance(l, ast.Call) and isinstance(l.func, ast.Attribute) and l.func.attr == 'get' and U.chain(l.func.value) and U.chain(l.func.value)[0] == 'self' \
+                            and len(U.chain(l.func.value)) == 2 and len(l.args) == 1:
+                        fld = U.chain(l.func.value)[1]
+                    elif isinstance(l, ast.Subscript) and U.chain(l.value) and U.chain(l.value)[0] == 'self' and len(U.chain(l.value)) == 2:
+                        fld = U.chain(l.value)[1]
+                    if fld is None or fld not in stored:
+                        continue
+                    n_tests += 1
+                    ctx.check(not never_none(fld), 'R3.9', path, f'{cnode.name}.{m.name}', t, f'the None test on self.{fld} can succeed: the dictionary holds None (or lacks the key) when there is no result',
+                              f'{U.src(t)} tests a dictionary that is pre-filled with a non-None value for every phase and never receives None: the test cannot tell whether a previous result exists, '
+                              'so the fallback it guards is never (or always) taken and the caller gets a record of Nones where it handles None', construct=f'{cnode.name}.{m.name}: {U.src(t)[:70]}')
+    ctx.floor('R3.9', n_tests, 1)
+
+
 def check(repo, ctx, index, purity):
     ctx.explanation = EXPLANATION
     ctx.assumptions += ['numeric ranges/finiteness of recorded values are not decided',
@@ -258,6 +323,7 @@ def check(repo, ctx, index, purity):
     r34(repo, ctx, index, purity)
     r35(repo, ctx)
     r36(repo, ctx)
+    r39(repo, ctx)
     # R3.7: the clock contract
     sub = type(ctx)(ctx.prop, ctx.repo, ctx.tier, ctx.seed)
     lo, hi, solve, names, init_nodes, fr = C05.bounds_roles(repo, sub)
